@@ -15,7 +15,7 @@ def own_of(k):
 
 
 rows = []
-tot = caught_own = with_input = 0
+tot = caught_own = with_input = full = any_caught = 0
 infra = []
 for k in sorted(m, key=lambda x: (x[0] != "C", x[:3], x)):
     if not os.path.exists(f"{V}/seeded/{k}/patch.diff"):
@@ -34,20 +34,27 @@ for k in sorted(m, key=lambda x: (x[0] != "C", x[:3], x)):
     infra += [(k, p) for p, v in r.items() if isinstance(v, dict) and v.get("rc") == 2]
     ownc = "**missed**" if o.get("rc") != 1 else ("failing input" if o.get("with_failing_input") else "no-failing-input-found")
     oth = ", ".join(p + ("" if p in others_fi else "°") for p in others) or "—"
+    if r.get("own_only"):
+        oth = "(not run)"
+    else:
+        full += 1
+        any_caught += bool(others) or o.get("rc") == 1
     rows.append(f"| {k} | {own} | {ownc} | {oth} |")
 
 text = f"""{BEGIN}
 ## Mutation matrix
 
-`tools/matrix.py` on the final tree: every seeded change (and the reverse of every repair) against
-the quick tier of all twenty checks, on scratch worktrees, corpus on, change-triggered factor off
-(`VERIF_NO_ESCALATION=1`, i.e. the plain quick tier). {caught_own} of {tot} changes are reported by the
-check of the property they break, {with_input} of them with a concrete failing input on the real code
-(the others with `no-failing-input-found`: a broken correspondence or theorem without a property
-clause failing on the cases drawn). "Also alarmed" lists other properties' checks that exit 1 on
-the same change (° = without a failing input); a change usually breaks several properties at once
-(a multiplexer defect shows in C04/C05, C06's tree comparison, C14, C16 and C01), and the masks of
-§3 are what keeps that list short. Exit 2 (infrastructure) anywhere in the matrix: {('none' if not infra else ', '.join(f'{a}→{b}' for a, b in infra))}.
+`tools/matrix.py` on the final tree, on scratch worktrees, corpus on, change-triggered factor off
+(`VERIF_NO_ESCALATION=1`, i.e. the plain quick tier). Every seeded change (and the reverse of every repair) is run
+against the check of the property it was written to break ("own check"); the changes of round 12 (composition) and
+the reverses of the repairs are also run against all twenty checks ("also alarmed"; ° = without a failing input) —
+for the other rounds that column says "(not run)" (an earlier full cross run over the first 139 changes is
+described in §9). {caught_own} of {tot} changes are reported by their own check, {with_input} of them with a concrete
+failing input on the real code (the others with `no-failing-input-found`: a broken correspondence or theorem without
+a property clause failing on the cases drawn). Of the {full} changes run against everything, {any_caught} are reported
+by at least one check. A change marked **missed** in the own-check column is either a round-12 change (whose own
+property is by construction not the one that owns the composition — see "also alarmed") or one of the round-11
+changes listed in §9 as not modelled. Exit 2 (infrastructure) anywhere in the matrix: {('none' if not infra else ', '.join(f'{a}→{b}' for a, b in infra))}.
 
 | change | property | own check | also alarmed |
 |---|---|---|---|
